@@ -105,6 +105,25 @@ def spec_strategy(draw, max_n=4, max_lag=3, max_lead=2, meas=(0, 2), allow_param
     return spec
 
 
+@st.composite
+def nl_spec_strategy(draw, **kwargs):
+    """Additive spec with 1-3 anchored nonlinear terms (no parameters, single variant)."""
+    kwargs.setdefault("allow_params", False)
+    kwargs.setdefault("allow_log", False)
+    spec = draw(spec_strategy(**kwargs))
+    n = spec["n"]
+    L, F = shifts(spec)
+    nl = []
+    for _ in range(draw(st.integers(1, 3))):
+        i = draw(st.integers(0, n - 1))
+        j = draw(st.integers(0, n - 1))
+        k = draw(st.integers(-max(L[j], 0), F[j]))
+        gamma = draw(st.sampled_from([0.1, -0.1, 0.2, -0.2, 0.05, 0.3]))
+        nl.append([i, j, k, gamma, draw(st.sampled_from(sorted(NL_KINDS)))])
+    spec["nl"] = nl
+    return spec
+
+
 # ---------------------------------------------------------------------------
 # Structure
 # ---------------------------------------------------------------------------
@@ -135,6 +154,9 @@ def shifts(spec):
             j, k = t[0], t[1]
             L[j] = max(L[j], -k)
             F[j] = max(F[j], k)
+    for _i, j, k, _g, _kind in nl_terms(spec):
+        L[j] = max(L[j], -k)
+        F[j] = max(F[j], k)
     return L, F
 
 
@@ -148,14 +170,37 @@ def max_lag_lead(spec):
     return max(L + [Lm]), max(F)
 
 
-def coefficient_matrices(spec, variant=None):
-    """dict k -> n x n matrix A_k of  sum_k A_k x(t+k) + c + S e = 0  (A_0 has -1 on the diagonal)."""
+# Nonlinear "anchored" terms: gamma * (g(x_j(t+k)) - g(xbar_j)) vanish at the steady state of the linear part,
+# so the steady state stays known; the linearisation gains the slope gamma * g'(xbar_j).
+NL_KINDS = {
+    "sq": (lambda x: x * x, lambda x: 2 * x, lambda tok: f"({tok})^2"),
+    "cube": (lambda x: x ** 3, lambda x: 3 * x * x, lambda tok: f"({tok})^3"),
+    "exp": (lambda x: math.exp(x), lambda x: math.exp(x), lambda tok: f"exp({tok})"),
+    "logistic": (lambda x: 1 / (1 + math.exp(-x)), lambda x: math.exp(-x) / (1 + math.exp(-x)) ** 2, lambda tok: f"(1/(1+exp(-{tok})))"),
+    "sqrt1": (lambda x: math.sqrt(x * x + 1), lambda x: x / math.sqrt(x * x + 1), lambda tok: f"sqrt(({tok})^2+1)"),
+}
+
+
+def nl_terms(spec):
+    return spec.get("nl") or []
+
+
+def coefficient_matrices(spec, variant=None, linearized=True):
+    """dict k -> n x n matrix A_k of  sum_k A_k x(t+k) + c + S e = 0  (A_0 has -1 on the diagonal).
+
+    With anchored nonlinear terms: the linear part only (linearized=False, used for the steady
+    state) or the first-order expansion around the steady state (linearized=True)."""
     n = spec["n"]
     A = {}
     for i, e in enumerate(spec["eqs"]):
         A.setdefault(0, np.zeros((n, n)))[i, i] += -1.0
         for t in e["terms"]:
             A.setdefault(t[1], np.zeros((n, n)))[i, t[0]] += _term_value(spec, t, variant)
+    if linearized and nl_terms(spec):
+        xs, _ = steady(spec, variant)
+        if xs is not None:
+            for i, j, k, gamma, kind in nl_terms(spec):
+                A.setdefault(k, np.zeros((n, n)))[i, j] += gamma * NL_KINDS[kind][1](float(xs[j]))
     c = np.array([e["const"] for e in spec["eqs"]], dtype=float)
     s = np.array([e["shock"] for e in spec["eqs"]], dtype=float)
     return A, c, s
@@ -244,7 +289,7 @@ def classify(spec, variant=None, margin=MARGIN):
 
 def steady(spec, variant=None):
     """Steady state of the additive form (log-levels for the log rendering); None if singular."""
-    Am, c, _ = coefficient_matrices(spec, variant)
+    Am, c, _ = coefficient_matrices(spec, variant, linearized=False)
     S = sum(Am.values())
     if abs(np.linalg.det(S)) < 1e-8 or np.linalg.cond(S) > 1e8:
         return None, None
@@ -306,6 +351,12 @@ def _render_additive(spec, i):
         pieces.append(f"{_coef_text(spec, t)}*{_tok(names[t[0]], t[1])}")
     if e["const"] != 0:
         pieces.append(_num(e["const"]))
+    if nl_terms(spec):
+        xs, _ = steady(spec)
+        for ii, j, k, gamma, kind in nl_terms(spec):
+            if ii == i:
+                g0 = NL_KINDS[kind][0](float(xs[j]))
+                pieces.append(f"{_num(gamma)}*({NL_KINDS[kind][2](_tok(names[j], k))} - {_num(g0)})")
     if e["shock"] != 0:
         sh = shock_names(spec)[i]
         pieces.append(sh if e["shock"] == 1.0 else f"{_num(e['shock'])}*{sh}")
@@ -389,13 +440,14 @@ def source(spec):
 # irispie model
 # ---------------------------------------------------------------------------
 
-def build_model(spec, variant_count=1, solve=True, stds=None, zero_steady=False):
+def build_model(spec, variant_count=1, solve=True, stds=None, zero_steady=False, flat=None):
     """Simultaneous model with parameters and the harness-computed steady state assigned.
 
     zero_steady: assign the all-zero (log: all-one) steady state - valid for constant-free
     models, and the only option for the unit-root family where sum_k A_k is singular."""
     import irispie as ir
-    m = ir.Simultaneous.from_string(source(spec), linear=not spec["log"])
+    kw = {} if flat is None else {"flat": flat}
+    m = ir.Simultaneous.from_string(source(spec), linear=not (spec["log"] or nl_terms(spec)), **kw)
     if variant_count > 1:
         m.alter_num_variants(variant_count)
     assign = {}
@@ -446,6 +498,7 @@ def residuals(spec, get, t, deviation=False, variant=None, which="transition"):
         return x
 
     out = []
+    nl_steady = None
     if which == "transition":
         shn = shock_names(spec)
         for i, e in enumerate(spec["eqs"]):
@@ -454,6 +507,12 @@ def residuals(spec, get, t, deviation=False, variant=None, which="transition"):
                 r += _term_value(spec, term, variant) * v(names[term[0]], t + term[1])
             if not deviation:
                 r += e["const"]
+            for ii, j, k, gamma, kind in nl_terms(spec):
+                if ii == i:
+                    if nl_steady is None:
+                        nl_steady = steady(spec, variant)[0]
+                    g = NL_KINDS[kind][0]
+                    r += gamma * (g(get(names[j], t + k)) - g(float(nl_steady[j])))
             if e["shock"] != 0:
                 r += e["shock"] * get("shock:" + shn[i], t)
             out.append(r)
